@@ -23,15 +23,21 @@ def cropOne (a b : α) (m : CropMode) (iv : Iv α) : Option (Iv α) :=
 def getIvs (a b : α) (m : CropMode) (es : List (Iv α)) : List (Iv α) :=
   es.filterMap (cropOne a b m)
 
+/-- the amount subtracted from every timestamp when rebasing: the window start, or the start of an
+earlier-starting first kept (lax) interval -/
+def rebaseDelta (a : α) (sel : List (Iv α)) : α :=
+  match sel with
+  | f :: _ => if f.s < a then f.s else a
+  | [] => a
+
+def shiftIv (d : α) (iv : Iv α) : Iv α := ⟨iv.s - d, iv.e - d, iv.l⟩
+
 /-- `IntervalTier.crop(cropStart, cropEnd, mode, rebaseToZero)` -/
 def ITier.crop (t : ITier α) (a b : α) (m : CropMode) (rebase : Bool) : Except Err (ITier α) :=
   if b ≤ a then .error .ArgumentError else
   let sel := getIvs a b m t.es
   if rebase then
-    let td := match sel with
-      | f :: _ => if f.s < a then f.s else a
-      | [] => a
-    mkITier t.name (sel.map fun iv => ⟨iv.s - td, iv.e - td, iv.l⟩) (some Tm.zero) (some (b - a))
+    mkITier t.name (sel.map (shiftIv (rebaseDelta a sel))) (some Tm.zero) (some (b - a))
   else
     mkITier t.name sel (some a) (some b)
 
